@@ -1151,6 +1151,45 @@ def _route_methods() -> List[str]:
     L += ["def routeNames : List String := [" + ", ".join(json.dumps(k) for k in seen) + "]", ""]
     return ["/-- `RequestResponse.from_bool` -/", "def fromBool (r : State × Bool) : State × Out := (r.1, ofBool r.2)", ""] + L
 
+
+def _folder_route_methods() -> List[str]:
+    """The same for `Folder._init_request_manager` (two routes: `delete` = remove_file_by_name, `file` = the file's own manager behind two validators)."""
+    from harness.extract.filesystem import _add_requests
+    irm = find_method(class_def(parse(FOLDER), "Folder"), "_init_request_manager")
+    binds = {}
+    for st in irm.body:
+        if isinstance(st, ast.Assign) and isinstance(st.value, ast.Call) and "Validator" in _u(st.value.func):
+            if [k.arg for k in st.value.keywords] != ["folder"] or _u(st.value.keywords[0].value) != "self" or st.value.args:
+                raise Unsupported("validator binding " + _u(st))
+            binds[_u(st.targets[0])] = _u(st.value.func)
+    vnames = {f"{cn}.{vn}": nm for _, cn, vn, nm, v, b in VALIDATORS if v == "g"}
+    L: List[str] = []
+    rows = _add_requests(irm)
+    if sorted((m, n) for m, n, _, _ in rows) != [("rm", "delete"), ("rm", "file")]:
+        raise Unsupported("Folder._init_request_manager: routes " + str([(m, n) for m, n, _, _ in rows]))
+    for mgr, name, func, val in rows:
+        guards = []
+        for part in [x.strip() for x in val.split("+")] if val else []:
+            if binds.get(part) not in vnames:
+                raise Unsupported(f"folder route {name}: validator {part}")
+            guards.append(f"{vnames[binds[part]]} g r0")
+        if name == "delete":
+            f = ast.parse(func, mode="eval").body
+            ok = (isinstance(f, ast.Lambda) and isinstance(f.body, ast.Call) and _u(f.body.func) == "RequestResponse.from_bool" and len(f.body.args) == 1
+                  and isinstance(f.body.args[0], ast.Call) and _u(f.body.args[0].func) == "self.remove_file_by_name"
+                  and _kwargs(f.body.args[0], ("file_name",)) == ["r0"])
+            if not ok:
+                raise Unsupported("folder route delete: " + func[:80])
+            body = "((folderRemoveFileByName g r0).1, ofBool (folderRemoveFileByName g r0).2)"
+            L += ["/-- the route `delete` of a folder's request manager -/", "def folderRouteDelete (g : Folder) (r0 : Name) : Folder × Out :=",
+                  (f"  if !({' && '.join(guards)}) then (g, .failure) else {body}" if guards else f"  {body}"), ""]
+        else:
+            if func != "self._file_request_manager" or not guards:
+                raise Unsupported("folder route file: " + func[:80])
+            L += ["/-- the guard of the route `file` of a folder's request manager (func: the name-keyed manager of the files) -/",
+                  "def folderRouteFileGuard (g : Folder) (r0 : Name) : Bool :=", "  " + " && ".join(guards), ""]
+    return L
+
 LOOKUP_METHODS = [  # (class, method, lean name, kind, result, parameters (python name -> (lean binder, env kind)))
     ("Folder", "get_file", "folderGetFile", "folder", "optfile", [("file_name", "Name", None), ("include_deleted", "Bool", "bool")]),
     ("Folder", "remove_file", "folderRemoveFile", "folder", "unit", [("file", "File", "file")]),
@@ -1236,6 +1275,7 @@ def emit() -> str:
     R += _describe_methods()
     R += _handler_methods()
     R += _route_methods()
+    R += _folder_route_methods()
     L = ["import PrimaiteModel.Model.FileSystemHealth", "namespace Primaite.Gen.FileSystemMethods", "open Primaite.FileSystem", "",
          "/-- `Folder.restore_file`, translated statement by statement -/",
          "def folderRestoreFile (g : Folder) (file_name : Name) : Folder × Bool :=",
